@@ -391,10 +391,18 @@ class Prog:
         self._callgraph = None
 
     def fn(self, path):
-        return self.fns.get(path)
+        f = self.fns.get(path)
+        if f is None:
+            idx = self.__dict__.get("_stripped")
+            if idx is None:
+                idx = self._stripped = {}
+                for p, g in self.fns.items():
+                    idx.setdefault(strip_generics(p), g)
+            f = idx.get(path)
+        return f
 
     def need(self, path):
-        f = self.fns.get(path)
+        f = self.fn(path)
         if f is None:
             raise AnchorMissing("fn", path)
         return f
@@ -1036,6 +1044,22 @@ def origins_of_place(f, l, proj, extra_pass=(), _seen=None):
     return res
 
 
+def returned_payload_origins(f):
+    """Origins of the value a Result/Option-returning body returns in its Ok/Some case."""
+    out = []
+    for i, b in enumerate(f.blocks):
+        if b.get("cleanup"):
+            continue
+        for st in b["stmts"]:
+            if st["k"] == "assign" and st["to"]["l"] == 0 and "p" not in st["to"]:
+                rv = st["rv"]
+                if rv["k"] == "agg" and rv.get("variant") in ("Ok", "Some") and rv["ops"]:
+                    out.extend(origins(f, rv["ops"][0]))
+                elif rv["k"] == "use":
+                    out.extend(origins(f, rv["op"]))
+    return out
+
+
 def origin_callees(f, op, depth=5, _seen=None):
     """Callee names (stripped) reachable by following origins of `op` and, transitively, the arguments of the
     calls found (bounded depth): what computations does this value derive from?"""
@@ -1532,3 +1556,186 @@ def owns_by_value(ty, names):
             if not stack[-1]:
                 return True
     return False
+
+
+# --------------------------------------------------------------------------------------
+# (L) lock facts: which guard classes are held where
+
+GUARD_RX = re.compile(r"std::sync::(RwLockReadGuard|RwLockWriteGuard|MutexGuard)<'[^,]*, ([^<>]*(?:<[^<>]*>)?[^<>]*)>")
+
+
+def guard_class(ty, classes):
+    """classes: dict payload type string -> class name.  Returns (class, mode) if ty is (or wraps by value, e.g. in a
+    Result) a guard of one of the classes; mode in read/write/lock."""
+    if ty.startswith("&"):
+        return None
+    m = GUARD_RX.search(ty)
+    if not m:
+        return None
+    # by value: not behind a reference
+    pre = ty[:m.start()]
+    if pre.rstrip().endswith("&") or re.search(r"&(?:'\w+ )?(?:mut )?$", pre):
+        return None
+    kind, payload = m.group(1), m.group(2).strip()
+    mode = {"RwLockReadGuard": "read", "RwLockWriteGuard": "write", "MutexGuard": "lock"}[kind]
+    want = ("rw" if kind.startswith("RwLock") else "mutex", payload)
+    cls = classes.get(want)
+    if cls is None:
+        return None
+    return (cls, mode)
+
+
+class LockFacts:
+    """Forward dataflow over guard-typed locals: which locals hold a guard at each block's terminator."""
+
+    def __init__(self, prog, classes):
+        self.prog = prog
+        self.classes = classes
+        self._cache = {}
+        self._may_acquire = None
+
+    def guard_locals(self, f):
+        out = {}
+        for i, l in enumerate(f.locals):
+            g = guard_class(l["ty"], self.classes)
+            if g:
+                out[i] = g
+        return out
+
+    def _events(self, f, bb, gl):
+        ev = []
+        b = f.blocks[bb]
+        for st in b["stmts"]:
+            if st["k"] != "assign":
+                continue
+            rv = st["rv"]
+            if rv["k"] == "use":
+                src = _op_local(rv["op"])
+                dst = st["to"]["l"] if "p" not in st["to"] else None
+                if src in gl and rv["op"].get("o") == "move":
+                    ev.append(("release", src))
+                    if dst in gl:
+                        ev.append(("hold", dst))
+        return ev
+
+    def analyse(self, f, must=True):
+        key = (f.path, must)
+        if key in self._cache:
+            return self._cache[key]
+        gl = self.guard_locals(f)
+        n = f.n
+        TOP = None
+        inn = [TOP] * n
+        init = frozenset(l for l in gl if 1 <= l <= f.argc)
+        inn[0] = init
+        at_term = [None] * n
+        work = deque([0])
+        while work:
+            b = work.popleft()
+            cur = set(inn[b])
+            for (k, l) in self._events(f, b, gl):
+                if k == "hold":
+                    cur.add(l)
+                else:
+                    cur.discard(l)
+            at_term[b] = frozenset(cur)
+            t = f.blocks[b]["term"]
+            out = set(cur)
+            if t["k"] == "call":
+                for a in t["args"]:
+                    if a.get("o") == "move" and "pl" not in a and a["l"] in gl:
+                        out.discard(a["l"])
+                d = t.get("dest")
+                if d and "p" not in d and d["l"] in gl:
+                    out.add(d["l"])
+            elif t["k"] == "drop":
+                pl = t["place"]
+                if "p" not in pl and pl["l"] in gl:
+                    out.discard(pl["l"])
+            out = frozenset(out)
+            for s in f.succ(b):
+                if inn[s] is None:
+                    inn[s] = out
+                    work.append(s)
+                else:
+                    new = (inn[s] & out) if must else (inn[s] | out)
+                    if new != inn[s]:
+                        inn[s] = new
+                        work.append(s)
+        res = (gl, at_term)
+        self._cache[key] = res
+        return res
+
+    def borrowed_guards(self, f):
+        """Guards the caller holds and lends for the whole call: parameters of type &Guard / &mut Guard."""
+        out = set()
+        for i in range(1, f.argc + 1):
+            ty = f.local_ty(i)
+            if ty.startswith("&"):
+                inner = re.sub(r"^&(?:'\w+ )?(?:mut )?", "", ty)
+                g = guard_class(inner, self.classes)
+                if g:
+                    out.add(g)
+        return out
+
+    def held_at(self, f, bb, must=True):
+        """Set of (class, mode) held when the terminator of bb executes (arguments not yet moved)."""
+        gl, at = self.analyse(f, must)
+        if at[bb] is None:
+            return set()
+        return {gl[l] for l in at[bb]} | self.borrowed_guards(f)
+
+    def holders_at(self, f, bb, must=True):
+        gl, at = self.analyse(f, must)
+        return set(at[bb] or ())
+
+    def acquisitions(self, f):
+        """Direct acquisition call sites in f: list of (call, class, mode)."""
+        out = []
+        for c in f.calls:
+            if not c.sres:
+                continue
+            if c.sres in ("std::sync::RwLock::read", "std::sync::RwLock::write", "std::sync::Mutex::lock",
+                          "std::sync::RwLock::try_read", "std::sync::RwLock::try_write", "std::sync::Mutex::try_lock"):
+                rt = c.arg_tys[0] if c.arg_tys else ""
+                m = re.search(r"std::sync::(RwLock|Mutex)<(.*)>$", rt)
+                if not m:
+                    continue
+                want = ("rw" if m.group(1) == "RwLock" else "mutex", m.group(2).strip())
+                cls = self.classes.get(want)
+                if cls:
+                    mode = c.sres.split("::")[-1].replace("try_", "")
+                    out.append((c, cls, mode))
+        return out
+
+    def may_acquire(self):
+        """fn path -> set of classes it may acquire (directly or through callees / callbacks)."""
+        if self._may_acquire is None:
+            direct = {}
+            for p, f in self.prog.fns.items():
+                s = {cls for (_c, cls, _m) in self.acquisitions(f)}
+                if s:
+                    direct[p] = s
+            res = {p: set(s) for p, s in direct.items()}
+            rev = self.prog.callers()
+            work = deque(direct.keys())
+            while work:
+                p = work.popleft()
+                for q in rev.get(p, ()):
+                    cur = res.setdefault(q, set())
+                    new = res[p] - cur
+                    if new:
+                        cur |= new
+                        work.append(q)
+            self._may_acquire = res
+        return self._may_acquire
+
+    def call_may_acquire(self, c):
+        out = set()
+        for (cc, cls, _m) in self.acquisitions(c.fn):
+            if cc.bb == c.bb:
+                out.add(cls)
+        ma = self.may_acquire()
+        for t in self.prog.may_targets(c):
+            out |= ma.get(t, set())
+        return out
